@@ -350,6 +350,7 @@ func checkC09(c *Check) {
 	}
 	// the session to remove is the one the request presents, however its Cookie header is spaced (C05.R2's decoder rule)
 	cookieDecoderComplete(c, "C09.R2")
+	factoryGetIsALookup(c, "C09.R2")
 	// a logged-out (deleted) Redis session is noticed by every later operation of a check that was in flight: each
 	// successful operation passes through the TTL refresher, which fails on a key without creation time (C10.R3)
 	if sr, miss := getStoreRoles(P); c.Anchor("C09.R6", "session stores", len(miss) == 0) {
